@@ -224,6 +224,9 @@ def _replace_site(node, k, reason):
                 return ["block", [["let", ["id", "t1_"], node[3]], ["let", ["id", "t2_"], node[4]], ["expr", _fail_expr(node[2]["t"], reason)]]]
             if node[0] == "un":
                 return ["block", [["let", ["id", "t1_"], node[3]], ["expr", _fail_expr(node[2]["t"], reason)]]]
+            if node[0] == "assign":
+                # the assigned value is compiled first; the bounds checks of the accessors follow
+                return ["expr", ["block", [["let", ["id", "t1_"], node[3]], ["expr", _fail_expr("usize", "OutOfBounds")]]]]
             if node[0] == "index":
                 return ["block", [["let", ["id", "t1_"], node[1]], ["let", ["id", "t2_"], node[2]],
                                   ["expr", ["index", ["var", "t1_"], _fail_expr("usize", "OutOfBounds")]]]]
@@ -243,7 +246,7 @@ def location_phase(ctx, n):
     operation fails first, it does not)."""
     from . import c01, gen_prog
     fs = []
-    tally = {"no_panic": 0, "unique_site_agrees": 0, "reached_before_the_first_failure": 0, "assignment_site_not_traced": 0, "skipped": 0}
+    tally = {"no_panic": 0, "unique_site_agrees": 0, "reached_before_the_first_failure": 0, "not_traced_for_join": 0, "skipped": 0}
     cases = [c01.gen_case(ctx.rng.randrange(1 << 48), i, 6, features=STRESS if i % 2 else None, depth=3) for i in range(n)]
     ta = common.run_lines_guarded(common.GVH, [{"id": c["id"], "op": "typed_ast", "src": c["src"]} for c in cases], per_case_timeout=20.0)
     impl = common.run_lines_guarded(common.GVH, [c01.impl_case(c, "ssa", True) for c in cases], per_case_timeout=20.0)
@@ -274,8 +277,8 @@ def location_phase(ctx, n):
                 bad = True
             elif len({tuple(s["meta"]) for _, s in cands}) == 1:
                 tally["unique_site_agrees"] += 1
-            elif any(s.get("node") == "assign" for _, s in here) or set(a.get("uses") or []) & {"for-join"}:
-                tally["assignment_site_not_traced"] += 1
+            elif set(a.get("uses") or []) & {"for-join"}:
+                tally["not_traced_for_join"] += 1
             else:
                 other = "DivByZero" if reason == "OutOfBounds" else "OutOfBounds"
                 for i, s in here:
